@@ -32,6 +32,7 @@ def run(prog: Program, rep: Report, tier: str) -> None:
     copy_rules(rep, prog, cm)
     eq_rules(rep, prog, cm)
     edge_typing(rep, prog)
+    membership_accessors(rep, prog)
     who_may_write(rep, prog)
     iterable_once(rep, prog)
 
@@ -262,6 +263,12 @@ def registry_hits(rep: Report, prog: Program, cm: ClassModel) -> None:
             if nd.kind != 'test':
                 continue
             for t, a in collect_atoms(nd.expr).items():
+                if isinstance(a, ast.Call) and isinstance(a.func, ast.Attribute) and isinstance(a.func.value, ast.Name) and a.func.value.id == selfn:
+                    # a membership test spelt as a one-expression method of the class: self.has_node_id(x.id)
+                    hm = prog.find_method(g, a.func.attr)
+                    hb = [st for st in (hm.node.body if hm is not None else []) if not (isinstance(st, ast.Expr) and isinstance(st.value, ast.Constant))]
+                    if hm is not None and len(hb) == 1 and isinstance(hb[0], ast.Return) and hb[0].value is not None:
+                        a = substitute(hb[0].value, {**bind_args(a, hm, True), hm.self_name(): ast.Name(id=selfn, ctx=ast.Load())})
                 if not (isinstance(a, ast.Compare) and isinstance(a.ops[0], (ast.In, ast.NotIn))):
                     continue
                 key, reg = a.left, a.comparators[0]
@@ -498,6 +505,37 @@ def copy_rules(rep: Report, prog: Program, cm: ClassModel) -> None:
 
 
 # ------------------------------------------------------------------------------------------ D4
+def membership_accessors(rep: Report, prog: Program) -> None:
+    """has_<x>(key) answers whether key is in the registry: `key in self.<table>` with positive polarity and the method's own
+    parameter as the key (the mutators and the JSON reader decide on these answers whether to add or to reject)."""
+    rule = 'C16-D2 membership-accessors'
+    n = 0
+    for cname in ('LabelingMixin', 'Graph', 'HRG', 'InterpretationMixin'):
+        ci = prog.module(FG).classes.get(cname)
+        if ci is None:
+            continue
+        for nm, f in sorted(ci.methods.items()):
+            if not nm.startswith('has_'):
+                continue
+            n += 1
+            pos = f.positional_params()
+            rets = [r.value for r in own_nodes(f.node) if isinstance(r, ast.Return) and r.value is not None]
+            ok = len(rets) == 1 and len(pos) == 2
+            why = ''
+            if ok:
+                r = rets[0]
+                ok = isinstance(r, ast.Compare) and len(r.ops) == 1 and isinstance(r.ops[0], ast.In) and norm(r.left) == pos[1] and cnorm(r.comparators[0]).startswith(f"{pos[0]}.")
+                # equivalent spellings: self.T.get(k) is not None / self.T.__contains__(k) / bool(...)
+                if not ok and isinstance(r, ast.Compare) and len(r.ops) == 1 and isinstance(r.ops[0], ast.IsNot) and isinstance(r.comparators[0], ast.Constant) and r.comparators[0].value is None \
+                        and isinstance(r.left, ast.Call) and callee_last(r.left) == 'get' and len(r.left.args) == 1 and norm(r.left.args[0]) == pos[1] and norm(r.left.func.value).startswith(f"{pos[0]}."):
+                    ok = True
+                if not ok and isinstance(r, ast.Call) and callee_last(r) == '__contains__' and len(r.args) == 1 and norm(r.args[0]) == pos[1] and norm(r.func.value).startswith(f"{pos[0]}."):
+                    ok = True
+                why = f"returns `{norm(r)}`"
+            rep.ob(rule, f.fq(), f"{cname}.{nm}(k) is `k in self.<registry>`", f.loc(), ok, 'positive membership test on the parameter' if ok else (why or 'not a single membership test') + ': callers that add-if-absent / reject-if-present act on the opposite answer')
+    rep.floor('C16-D2 membership accessors', n, 4)
+
+
 def edge_typing(rep: Report, prog: Program) -> None:
     """Every edge's nodes carry the labels its label demands: the only place this is enforced is Edge.__init__ (Edge is
     immutable afterwards), which must refuse a node tuple whose labels differ from label.type."""
